@@ -8,6 +8,7 @@ CONSTANTS
   BUG_SLICE = FALSE
   BUG_CPNCOLS = FALSE
   BUG_OVERLIST = FALSE
+  BUG_REFUSED_NROWS = FALSE
   AllowAlias = FALSE
   EmitMode = 0
 INVARIANT NoError
@@ -17,5 +18,6 @@ INVARIANT SameStorage
 INVARIANT CopiesDisjoint
 INVARIANT CopyRectangular
 PROPERTY RowOpsUniform
+PROPERTY RefusedNoTrace
 VIEW View
 CHECK_DEADLOCK FALSE
